@@ -833,8 +833,8 @@ func TestVerif(t *testing.T) {
 				xcoq = append(xcoq, s)
 			}
 		}
-		runStress(c, Replay{Name: "fin-vs-closewrite", Stress: "closewrite", Rounds: c.N(2000, 40000)})
-		runStress(c, Replay{Name: "fin-vs-close", Stress: "close", Rounds: c.N(2000, 40000)})
+		runStress(c, Replay{Name: "fin-vs-closewrite", Stress: "closewrite", Rounds: c.N(500, 40000)})
+		runStress(c, Replay{Name: "fin-vs-close", Stress: "close", Rounds: c.N(500, 40000)})
 	}
 	var sb strings.Builder
 	sb.WriteString("From Coq Require Import List NArith Bool.\nFrom MM Require Import Model.Stream.\nImport ListNotations.\nLocal Open Scope N_scope.\n")
